@@ -101,6 +101,10 @@ fn run_inner(ch: &mut Chooser, partial: &mut Option<RunOutcome>) -> RunOutcome {
     let i_units = HostPort::interval_units(log);
     let path_trace = ch.boolean(S_CFG);
     let burst = ch.chance(S_CFG, 1, 8);
+    // in a quarter of the runs the parent falls silent for good at some point: the instance takes
+    // over as grandmaster (announce receipt timeout and/or BMCA, in either order)
+    let parent_dies = ch.chance(S_CFG, 1, 4);
+    let receipt_timeout = if parent_dies { ch.range(S_CFG, 2, 4) as u8 } else { 3 };
     let mut spec = NodeSpec::default();
     spec.id = BC_ID;
     spec.path_trace = path_trace;
@@ -113,7 +117,7 @@ fn run_inner(ch: &mut Chooser, partial: &mut Option<RunOutcome>) -> RunOutcome {
         ps.announce_log = log;
         ps.sync_log = log;
         ps.delay_log = log;
-        ps.receipt_timeout = 3;
+        ps.receipt_timeout = receipt_timeout;
         ps.segment = Some(seg);
         ps.filter = FilterKind::Basic(0.25);
         ps.forward_tlvs = true;
@@ -141,7 +145,9 @@ fn run_inner(ch: &mut Chooser, partial: &mut Option<RunOutcome>) -> RunOutcome {
     // phase 1: converge without TLVs (port 0 slave, others master)
     let t_conv = 12 * i_units;
     let n_intervals = ch.range(S_WORK, 6, 24) as u128;
-    let end = t_conv + n_intervals * i_units;
+    let death_at = if parent_dies { t_conv + ch.range(S_WORK, 2, n_intervals as u64) as u128 * i_units + ch.choose(S_WORK, 1000) as u128 * i_units / 1000 } else { u128::MAX };
+    let end = if parent_dies { death_at + 16 * i_units } else { t_conv + n_intervals * i_units };
+    let mut gm_announces_after_takeover = 0u64;
     let mut tlv_counter: u64 = 1;
     let mut queues: Vec<VecDeque<QItem>> = vec![VecDeque::new(); n_master + 1];
     let mut overflowed = vec![false; n_master + 1];
@@ -167,7 +173,14 @@ fn run_inner(ch: &mut Chooser, partial: &mut Option<RunOutcome>) -> RunOutcome {
         match st {
             Stepped::Script { tag, a, .. } => {
                 let converged = w.now() >= t_conv;
-                if a == 10 && tag == TAG_ANNOUNCE && converged {
+                if parent.active && w.now() >= death_at {
+                    parent.active = false;
+                    script.push("parent falls silent".into());
+                    w.out.fault("parent_silent_for_good");
+                }
+                if a == 10 && tag == TAG_ANNOUNCE && converged && !parent.active {
+                    w.schedule_script(w.now() + i_units, TAG_ANNOUNCE, 10, 0);
+                } else if a == 10 && tag == TAG_ANNOUNCE && converged {
                     // parent: generate this Announce's TLV suffix
                     let pt_len = if path_trace { 4 + 8 * (current_path.len() + 1) } else { 0 };
                     let room = MAX - ANNOUNCE_LEN - if pt_len < MAX - ANNOUNCE_LEN { pt_len } else { 0 };
@@ -377,6 +390,19 @@ fn run_inner(ch: &mut Chooser, partial: &mut Option<RunOutcome>) -> RunOutcome {
             // expected suffix
             let mut emitted_tlvs: VecDeque<Tlv> = f.tlvs.iter().cloned().collect();
             let mut room = MAX - ANNOUNCE_LEN;
+            if path_trace && parent_now.clock == own {
+                // the data sets say the instance is grandmaster: there is no parent whose path could be
+                // carried, the Announce holds the instance's own identity only
+                gm_announces_after_takeover += 1;
+                let pt = f.tlvs.iter().find(|t| t.typ == TLV_PATH_TRACE);
+                if pt.map(|t| t.value != own.to_vec()).unwrap_or(false) {
+                    viol.push((
+                        "C15.grandmaster_announce_carries_foreign_path".into(),
+                        String::new(),
+                        format!("port {p}: the instance is grandmaster (parentDS names itself) but its Announce carries a path of {} identities", pt.map(|t| t.value.len() / 8).unwrap_or(0)),
+                    ));
+                }
+            }
             if path_trace {
                 let mut want = Vec::new();
                 for c in node.inst.path_trace_ds().list.iter() {
@@ -460,6 +486,9 @@ fn run_inner(ch: &mut Chooser, partial: &mut Option<RunOutcome>) -> RunOutcome {
                 break; // keep arrival order: wait for the next Announce
             }
             let _ = idx;
+            if std::env::var("VERIF_TRACE").is_ok() {
+                eprintln!("      model port{} expected {:?} then queue head {:?} (len {}) overflowed {} ambiguous {} parent_now {}", p, expected.iter().map(|i| (i.tlv.typ, i.tlv.wire_len())).collect::<Vec<_>>(), q.iter().take(4).map(|i| (i.tlv.typ, i.tlv.wire_len(), i.sender.short())).collect::<Vec<_>>(), q.len(), overflowed[p], ambiguous[p], parent_now.short());
+            }
             let got: Vec<Tlv> = emitted_tlvs.into_iter().collect();
             let exp_tlvs: Vec<&Tlv> = expected.iter().map(|i| &i.tlv).collect();
             let same = got.len() == exp_tlvs.len() && got.iter().zip(exp_tlvs.iter()).all(|(a, b)| a == *b);
@@ -469,7 +498,10 @@ fn run_inner(ch: &mut Chooser, partial: &mut Option<RunOutcome>) -> RunOutcome {
                 // forwarder overflow is the only permitted loss, and after a first divergence the model can
                 // no longer know what the real queue holds: safety only - every forwarded TLV must be one
                 // that was received unmodified from a parent and is of a propagating type
+                // (a divergence under overflow leaves the model queue out of step with the real one for
+                // good: which entries the daemon's broadcast channel dropped is not observable)
                 overflowed[p] = q.len() > 128;
+                ambiguous[p] = true;
                 for g in &got {
                     if !seen_from_parent.iter().any(|(t, s)| t == g && *s == parent_now) || !Tlv::propagates(g.typ) {
                         viol.push(("C15.forwarded_tlv_not_queued".into(), "lenient=true".into(), format!("port {p} forwarded TLV {:#06x}/{} that was never received from a parent (or is not propagating)", g.typ, g.value.len())));
@@ -520,6 +552,7 @@ fn run_inner(ch: &mut Chooser, partial: &mut Option<RunOutcome>) -> RunOutcome {
     w.out.probe_n("announces_checked", checked_announces);
     w.out.probe_n("tlvs_forwarded_as_expected", forwarded_ok);
     w.out.probe_n("looping_announces_sent", loops_sent);
+    w.out.probe_n("announces_as_grandmaster_after_parent_loss", if parent_dies { gm_announces_after_takeover } else { 0 });
     w.out.probe_n("tlv_wire_size_equals_remaining_room", equals_room);
     if burst {
         w.out.probe("burst_run");
